@@ -377,58 +377,99 @@ def noise_first(idx: ProgramIndex, rep: Report):
 
 # ---- C12-3 (shared with C08-3) -------------------------------------------------------------------------------------
 def list_routing(idx: ProgramIndex, rep: Report, clsname: str, member_attr: str, rule: str, floor: int):
+    """member i <-> argument tuple i, in comprehension form or as a for loop that appends; per-member keywords are fresh for every
+    member (a keyword mapping shared by all members must not be modified inside the loop)"""
     cls = idx.find_class(clsname)
     n = 0
+
+    def is_member_zip(it) -> bool:
+        return isinstance(it, ast.Call) and (chain(it.func) or "").split(".")[-1] in ("zip", "length_safe_zip") and bool(it.args) and "self.%s" % member_attr in src(it)
+
+    def check_call(it, tg, elt, probs):
+        if chain(it.args[0]) != "self.%s" % member_attr:
+            probs.append("the members are not iterated in order as the first zip operand (`%s`)" % src(it.args[0]))
+        names = [e.id for e in tg.elts if isinstance(e, ast.Name)] if isinstance(tg, ast.Tuple) else []
+        if len(names) != len(it.args):
+            probs.append("zip operands and loop targets do not match")
+        if not isinstance(elt, ast.Call):
+            probs.append("element is not a call on the member")
+        elif names:
+            recv = elt.func
+            root = recv
+            while isinstance(root, ast.Attribute):
+                root = root.value
+            if not (isinstance(root, ast.Name) and root.id == names[0]):
+                probs.append("the call is not made on the zipped member `%s`" % names[0])
+            # positional arguments: the member's own tuple, starred
+            for a in elt.args:
+                if isinstance(a, ast.Starred):
+                    if not (isinstance(a.value, ast.Name) and a.value.id in names[1:]):
+                        probs.append("starred positional arguments `%s` are not the member's own zipped tuple" % src(a.value))
+                elif isinstance(a, ast.Dict):
+                    probs.append("a keyword mapping is passed as a positional dict display (`%s`): the member receives it as a parameter" % src(a)[:50])
+                elif isinstance(a, ast.Name) and a.id in names[1:]:
+                    pass
+                elif isinstance(a, ast.Name) and a.id not in names:
+                    probs.append("positional argument `%s` is shared by all members instead of being zipped" % a.id)
+        return names
+
+    def forwarded(extra, elt, extra_sources=()) -> bool:
+        return any(isinstance(a, ast.Starred) and isinstance(a.value, ast.Name) and a.value.id == extra for a in elt.args) \
+            or any(isinstance(a, ast.Name) and a.id == extra for a in elt.args) \
+            or any(any(isinstance(x, ast.Name) and x.id == extra for x in ast.walk(k.value)) for k in elt.keywords) \
+            or any(any(isinstance(x, ast.Name) and x.id == extra for x in ast.walk(e)) for e in extra_sources)
+
     for name, fi in sorted(cls.methods.items()):
-        comps = [c for c in ast.walk(fi.node) if isinstance(c, (ast.ListComp, ast.GeneratorExp))]
-        for comp in comps:
-            if len(comp.generators) != 1:
+        for comp in [c for c in ast.walk(fi.node) if isinstance(c, (ast.ListComp, ast.GeneratorExp))]:
+            if len(comp.generators) != 1 or not is_member_zip(comp.generators[0].iter):
                 continue
             g = comp.generators[0]
-            it = g.iter
-            if not (isinstance(it, ast.Call) and (chain(it.func) or "").split(".")[-1] in ("zip", "length_safe_zip")):
-                continue
-            if not it.args or "self.%s" % member_attr not in src(it):
-                continue
             n += 1
-            inst = "%s:%s.%s[%s]" % (cls.module.name, cls.qualname, name, norm(it)[:70])
-            probs = []
-            if chain(it.args[0]) != "self.%s" % member_attr:
-                probs.append("the members are not iterated in order as the first zip operand (`%s`)" % src(it.args[0]))
-            tg = g.target
-            names = [e.id for e in tg.elts if isinstance(e, ast.Name)] if isinstance(tg, ast.Tuple) else []
-            if len(names) != len(it.args):
-                probs.append("zip operands and loop targets do not match")
-            elt = comp.elt
-            if not isinstance(elt, ast.Call):
-                probs.append("element is not a call on the member")
-            elif names:
-                recv = elt.func
-                root = recv
-                while isinstance(root, ast.Attribute):
-                    root = root.value
-                if not (isinstance(root, ast.Name) and root.id == names[0]):
-                    probs.append("the call is not made on the zipped member `%s`" % names[0])
-                # positional arguments: the member's own tuple, starred
-                for a in elt.args:
-                    if isinstance(a, ast.Starred):
-                        if not (isinstance(a.value, ast.Name) and a.value.id in names[1:]):
-                            probs.append("starred positional arguments `%s` are not the member's own zipped tuple" % src(a.value))
-                    elif isinstance(a, ast.Dict):
-                        probs.append("a keyword mapping is passed as a positional dict display (`%s`): the member receives it as a parameter" % src(a)[:50])
-                    elif isinstance(a, ast.Name) and a.id in names[1:]:
-                        pass
-                    elif isinstance(a, ast.Name) and a.id not in names:
-                        probs.append("positional argument `%s` is shared by all members instead of being zipped" % a.id)
-                # every zipped per-member value must be forwarded to the member (starred positional, ** mapping or keyword value)
+            inst = "%s:%s.%s[%s]" % (cls.module.name, cls.qualname, name, norm(g.iter)[:70])
+            probs: List[str] = []
+            names = check_call(g.iter, g.target, comp.elt, probs)
+            if isinstance(comp.elt, ast.Call):
                 for extra in names[1:]:
-                    used = any(isinstance(a, ast.Starred) and isinstance(a.value, ast.Name) and a.value.id == extra for a in elt.args) \
-                        or any(isinstance(a, ast.Name) and a.id == extra for a in elt.args) \
-                        or any(any(isinstance(x, ast.Name) and x.id == extra for x in ast.walk(k.value)) for k in elt.keywords)
-                    if not used:
+                    if not forwarded(extra, comp.elt):
                         probs.append("per-member value `%s` is zipped but not forwarded to the member" % extra)
             rep.add(rule, inst, "%s:%d" % (fi.module.relpath, comp.lineno), not probs, "member i <-> argument tuple i, keywords forwarded with **" if not probs else "; ".join(probs), {})
-    rep.floor(rule, "%s delegating comprehensions" % clsname, n, floor)
+        for loop in [l for l in ast.walk(fi.node) if isinstance(l, ast.For)]:
+            if not is_member_zip(loop.iter):
+                continue
+            n += 1
+            inst = "%s:%s.%s[%s]" % (cls.module.name, cls.qualname, name, norm(loop.iter)[:70])
+            probs = []
+            tnames = [e.id for e in loop.target.elts if isinstance(e, ast.Name)] if isinstance(loop.target, ast.Tuple) else []
+            assigned_in_loop = {t.id for st in ast.walk(loop) if isinstance(st, ast.Assign) for t in st.targets if isinstance(t, ast.Name)}
+            calls = [c for st in loop.body for c in ast.walk(st) if isinstance(c, ast.Call) and tnames and any(isinstance(x, ast.Name) and x.id == tnames[0] for x in ast.walk(c.func))]
+            if not calls:
+                probs.append("no call on the zipped member in the loop body")
+            # a mapping/sequence that exists before the loop and is handed to every member must not be modified per member
+            passed = {x.id for c in calls for k in c.keywords if k.arg is None for x in ast.walk(k.value) if isinstance(x, ast.Name)} | \
+                     {a.value.id for c in calls for a in c.args if isinstance(a, ast.Starred) and isinstance(a.value, ast.Name)}
+            for st in ast.walk(loop):
+                tgt = None
+                if isinstance(st, (ast.Assign, ast.AugAssign)):
+                    for t in (st.targets if isinstance(st, ast.Assign) else [st.target]):
+                        if isinstance(t, ast.Subscript) and isinstance(t.value, ast.Name):
+                            tgt = t.value.id
+                elif isinstance(st, ast.Call) and isinstance(st.func, ast.Attribute) and st.func.attr in ("update", "setdefault", "pop", "__setitem__", "clear") and isinstance(st.func.value, ast.Name):
+                    tgt = st.func.value.id
+                elif isinstance(st, ast.Delete):
+                    for t in st.targets:
+                        if isinstance(t, ast.Subscript) and isinstance(t.value, ast.Name):
+                            tgt = t.value.id
+                if tgt is not None and tgt in passed and tgt not in assigned_in_loop and tgt not in tnames:
+                    probs.append("`%s` is shared by all members and modified inside the per-member loop (`%s`): member i+1 is called with what was set for member i" % (tgt, " ".join(src(st).split())[:50]))
+            for c in calls:
+                names = check_call(loop.iter, loop.target, c, probs)
+                # values that flow into per-iteration locals count as forwarded through them
+                local_defs = [st.value for st in ast.walk(loop) if isinstance(st, ast.Assign)] + [st.value for st in ast.walk(loop) if isinstance(st, ast.Assign) and isinstance(st.targets[0], ast.Subscript)]
+                for extra in names[1:]:
+                    if not forwarded(extra, c, local_defs):
+                        probs.append("per-member value `%s` is zipped but not forwarded to the member" % extra)
+            rep.add(rule, inst, "%s:%d" % (fi.module.relpath, loop.lineno), not probs, "member i <-> argument tuple i in a per-member loop with per-member keywords" if not probs else "; ".join(sorted(set(probs))), {})
+    rep.floor(rule, "%s delegating iterations" % clsname, n, floor)
 
 
 def aliasing(idx: ProgramIndex, rep: Report):
